@@ -589,3 +589,174 @@ Theorem C01_refuted_witnesses :
   S_ "SESSION | OK #<void> | ERR | OK #<void> | OK #(1 2) | OK #(1 2 1 2) | OK #<void> | ERR | OK #f | OK (if 1 2 #f) | OK (a unquote (+ 1 2)) LOG"%string.
 Proof. vm_compute. reflexivity. Qed.
 Print Assumptions C01_refuted_witnesses.
+
+(* ====================================================================================== R2 *)
+(* R2 — the machine invariant [minv] (heap_inv + ginv + sp < scap) for the BOOTED machine and for
+   every state a session can reach, BY PRESERVATION (the generated prelude is never evaluated
+   in the kernel).  [minv] alone is not inductive (restore_continuation sets sp from a saved
+   continuation; nothing in minv speaks about continuations).  The invariant that every
+   monadic computation of the model preserves is
+       rinv s  :=  finv s /\ J s
+   [finv]: Proofs/FlatProofs.v (C02: contains lex_inv, hence heap_inv), preserved by the
+   compiler, every instruction, every builtin (FlatAll.v).  [J] (Proofs/KeepCalc.v): ginv,
+   sp < scap, and "every captured continuation saved its stack up to its own sp"; preserved by
+   every primitive of the state monad, the compiler on ANY datum (KeepCompile.v), every builtin
+   of the real table (KeepListVec.v, KeepPkg.v), every instruction, the run loop including the
+   error path, Vm::eval and the boot sequence (KeepRun.v, BootMinv.v). *)
+From MW Require Proofs.FlatProofs Proofs.FlatAll Proofs.KeepCalc Proofs.KeepCompile Proofs.KeepRun
+  Proofs.BootMinv Proofs.BootGenv Proofs.BootCorollaries.
+From MW Require Import Model.Transform.
+
+Theorem C01_J_unfold : forall s, KeepCalc.J s <->
+  ginv s /\ sp s < scap s /\
+  (forall cid k, tget (conts (st s)) cid = Some k -> k_sp k < len (k_stack k)).
+Proof.
+  intros s. split; [intros [G S K]; auto|intros (G & S & K); constructor; assumption].
+Qed.
+Print Assumptions C01_J_unfold.
+
+Theorem C01_rinv_minv : forall s, FlatProofs.finv s /\ KeepCalc.J s -> minv s.
+Proof. exact BootMinv.rinv_minv. Qed.
+Print Assumptions C01_rinv_minv.
+
+Theorem C01_rinv_empty : forall c, 0 < c -> FlatProofs.finv (vm_empty c) /\ KeepCalc.J (vm_empty c).
+Proof. exact BootMinv.rinv_empty. Qed.
+Print Assumptions C01_rinv_empty.
+Example C01_rinv_empty_example : BootMinv.rinv (vm_empty 8192) /\ minv (vm_empty 8192).
+Proof. split; [apply BootMinv.rinv_empty; reflexivity|apply BootMinv.rinv_minv, BootMinv.rinv_empty; reflexivity]. Qed.
+
+(* the compiler, on ANY datum, with any fuel, lambda under construction and tail flag: success
+   or compile error, the state satisfies J again (finv: C02_compile_bc_ok) *)
+Theorem C01_compile_preserves_J : forall f l tail e s, KeepCalc.J s ->
+  match compile_expression f l tail e s with ROk _ s' | RErr _ _ s' => KeepCalc.J s' | _ => True end.
+Proof. exact BootMinv.compile_J_plain. Qed.
+Print Assumptions C01_compile_preserves_J.
+
+(* one instruction of the real machine (any opcode, including CALL/TCALL of any builtin of the
+   generated table, of `apply`, `eval`, call/cc and of a continuation) *)
+Theorem C01_step_preserves_J : forall s, KeepCalc.J s ->
+  match run_one other_builtin s with ROk _ s' | RErr _ _ s' => KeepCalc.J s' | _ => True end.
+Proof. exact BootMinv.run_one_J_plain. Qed.
+Print Assumptions C01_step_preserves_J.
+
+(* Vm::eval of ANY datum (not only fragment expressions), any fuel: whenever a machine is left
+   — a value, a run-time error (registers reset, stack cleared), a compile error — it satisfies
+   the invariant again *)
+Theorem C01_eval_preserves_rinv : forall fuel e s, FlatProofs.finv s /\ KeepCalc.J s ->
+  match eval other_builtin fuel e s with
+  | ROk _ s' | RErr _ _ s' => FlatProofs.finv s' /\ KeepCalc.J s'
+  | _ => True end.
+Proof. exact BootMinv.eval_rinv_plain. Qed.
+Print Assumptions C01_eval_preserves_rinv.
+
+(* the sliced interface (prepare_eval, then run_count with a budget) *)
+Theorem C01_prepare_eval_preserves_rinv : forall e s, FlatProofs.finv s /\ KeepCalc.J s ->
+  match prepare_eval e s with
+  | ROk _ s' | RErr _ _ s' => FlatProofs.finv s' /\ KeepCalc.J s'
+  | _ => True end.
+Proof. exact BootMinv.prepare_eval_rinv_plain. Qed.
+Print Assumptions C01_prepare_eval_preserves_rinv.
+Theorem C01_run_count_preserves_rinv : forall fuel count s, FlatProofs.finv s /\ KeepCalc.J s ->
+  match run_count other_builtin fuel count s with
+  | ROk _ s' | RErr _ _ s' => FlatProofs.finv s' /\ KeepCalc.J s'
+  | _ => True end.
+Proof. exact BootMinv.run_count_rinv_plain. Qed.
+Print Assumptions C01_run_count_preserves_rinv.
+
+(* non-vacuity: ((lambda (x) (set! x 2) x) 1) — a body of two expressions and `set!` on a local
+   variable, OUTSIDE every proved fragment — evaluates on the empty machine to 2 and the final
+   state satisfies the invariant (by the theorem), hence minv *)
+Example C01_eval_preserves_example :
+  exists s', eval other_builtin 200 BootCorollaries.bx_datum (vm_empty 8192) = ROk (Done (CNum (Num.Fixnum 2))) s' /\
+             BootMinv.rinv s' /\ minv s'.
+Proof. exact BootCorollaries.bx_done. Qed.
+
+(* Vm::load_builtins (builtin/mod.rs:35-57) from ANY minv state succeeds, keeps minv and the
+   registers, only extends the machine, and binds EVERY registered builtin name to a global slot
+   holding a pointer to an allocated VBuiltin cell with the index of the name in the generated
+   table ([builtin_rho x] = Some (RBuiltin i) iff the i-th entry of the table is named x; the
+   names are pairwise distinct: BootGenv.builtin_names_nodup) *)
+Theorem C01_load_builtins_ok : forall s, minv s ->
+  exists s0, load_builtins s = ROk tt s0 /\ minv s0 /\ cext s s0 /\
+             sp s0 = sp s /\ bp s0 = bp s /\ ep s0 = ep s /\ out_log s0 = out_log s /\
+             genv_rel BootGenv.builtin_rho s0 /\ genv_rel3 BootGenv.builtin_rho3 s0.
+Proof. exact BootGenv.load_builtins_ok. Qed.
+Print Assumptions C01_load_builtins_ok.
+Theorem C01_builtin_rho_unfold : forall x i, BootGenv.builtin_rho3 x = Some (R3Base (RBuiltin i)) <->
+  exists e, nth_error Gen.Builtins.builtin_table (N.to_nat i) = Some e /\ fst e = x.
+Proof.
+  intros x i. rewrite <- BootGenv.builtin_index_iff. unfold BootGenv.builtin_rho3.
+  destruct (BootGenv.builtin_index x) as [j|]; split; intros H; try discriminate; [injection H as <-|injection H as <-]; reflexivity.
+Qed.
+Print Assumptions C01_builtin_rho_unfold.
+Theorem C01_load_builtins_preserves_rinv : forall s, FlatProofs.finv s /\ KeepCalc.J s ->
+  match load_builtins s with
+  | ROk _ s' | RErr _ _ s' => FlatProofs.finv s' /\ KeepCalc.J s'
+  | _ => True end.
+Proof. exact BootMinv.load_builtins_rinv_plain. Qed.
+Print Assumptions C01_load_builtins_preserves_rinv.
+(* non-vacuity: the boot sequence without the prelude text (load_builtins over the whole
+   generated table, from vm_empty 8192) *)
+Example C01_load_builtins_example :
+  exists s, boot_with [] = Some s /\ load_builtins (vm_empty 8192) = ROk tt s /\ BootMinv.rinv s /\ minv s /\
+            genv_rel BootGenv.builtin_rho s /\ genv_rel3 BootGenv.builtin_rho3 s.
+Proof. exact BootCorollaries.boot_bare. Qed.
+
+(* the boot sequence with ANY prelude text, and the machine of Vm::new *)
+Theorem C01_boot_rinv : forall prelude s, boot_with prelude = Some s -> FlatProofs.finv s /\ KeepCalc.J s.
+Proof. exact BootMinv.boot_with_rinv. Qed.
+Print Assumptions C01_boot_rinv.
+Theorem C01_booted_minv : forall s, booted = Some s -> minv s.
+Proof. exact BootMinv.booted_minv. Qed.
+Print Assumptions C01_booted_minv.
+(* every state of a session: any number of Vm::eval calls from the booted machine, with any
+   data, any fuels, whatever their outcomes *)
+Theorem C01_session_minv : forall s0 s, booted = Some s0 -> FlatAll.evals s0 s -> minv s.
+Proof. exact BootMinv.session_minv. Qed.
+Print Assumptions C01_session_minv.
+
+(* C01_eval_fragment3 on the booted machine and on every session state: the premise [minv] is
+   discharged.  What remains: the reference environment rho must describe (part of) the
+   machine's globals ([genv_rel3 rho s]; the empty environment always does), and the macro
+   expander must leave the form alone (explicit premise, as before). *)
+Theorem C01_eval_fragment3_session :
+  forall (ob : N -> M vcell) (bsem : N -> list rval -> option rval),
+  (forall b, builtin_ok ob bsem b) -> (forall b, builtin_envs ob bsem b) ->
+  forall e rho r rho' s0 s,
+  booted = Some s0 -> FlatAll.evals s0 s ->
+  wf3 e [] -> ref_eval3 bsem [] [] rho e r rho' -> genv_rel3 rho s ->
+  transform_expr TRANSFORM_FUEL s (cell_of3 e) = Ok (cell_of3 e) ->
+  exists n m, (forall fuel, (n <= fuel)%nat -> eval ob fuel (cell_of3 e) s = halt_result m) /\
+    vrep3 m (acc m) r /\ genv_rel3 rho' m /\ minv m /\ cext s m /\
+    sp m = sp s /\ bp m = bp s /\ ep m = ep s /\ out_log m = out_log s.
+Proof. exact BootCorollaries.eval_fragment3_session. Qed.
+Print Assumptions C01_eval_fragment3_session.
+Theorem C01_eval_fragment3_booted :
+  forall (ob : N -> M vcell) (bsem : N -> list rval -> option rval),
+  (forall b, builtin_ok ob bsem b) -> (forall b, builtin_envs ob bsem b) ->
+  forall e rho r rho' s,
+  booted = Some s ->
+  wf3 e [] -> ref_eval3 bsem [] [] rho e r rho' -> genv_rel3 rho s ->
+  transform_expr TRANSFORM_FUEL s (cell_of3 e) = Ok (cell_of3 e) ->
+  exists n m, (forall fuel, (n <= fuel)%nat -> eval ob fuel (cell_of3 e) s = halt_result m) /\
+    vrep3 m (acc m) r /\ genv_rel3 rho' m /\ minv m /\ cext s m /\
+    sp m = sp s /\ bp m = bp s /\ ep m = ep s /\ out_log m = out_log s.
+Proof. exact BootCorollaries.eval_fragment3_booted. Qed.
+Print Assumptions C01_eval_fragment3_booted.
+(* non-vacuity on the machine with the builtins loaded (boot without the prelude text): (not '#f)
+   with the operator read from the GLOBAL `not` that load_builtins bound; all hypotheses of
+   C01_eval_fragment3 hold with the reference environment of ALL builtin names, and the model
+   computes #t *)
+Example C01_builtins_loaded_example :
+  exists s, load_builtins (vm_empty 8192) = ROk tt s /\ minv s /\ genv_rel3 BootGenv.builtin_rho3 s /\
+    wf3 BootCorollaries.bn_e [] /\
+    ref_eval3 bsem_not [] [] BootGenv.builtin_rho3 BootCorollaries.bn_e (R3Base (RDatum (CBool true))) BootGenv.builtin_rho3 /\
+    transform_expr TRANSFORM_FUEL s (cell_of3 BootCorollaries.bn_e) = Ok (cell_of3 BootCorollaries.bn_e).
+Proof. exact BootCorollaries.bn_hypotheses. Qed.
+Example C01_builtins_loaded_example_run :
+  match load_builtins (vm_empty 8192) with
+  | ROk _ s => match eval other_builtin 200 (cell_of3 BootCorollaries.bn_e) s with
+               | ROk (Done c) s' => c = CBool true /\ sp s' = 0 /\ bp s' = 0 /\ ep s' = USIZE_MAX
+               | _ => False end
+  | _ => False end.
+Proof. exact BootCorollaries.bn_run. Qed.
